@@ -2,6 +2,8 @@ import MxModel.Proofs.Reach
 import MxModel.Props.C08
 import MxModel.Props.C01
 import MxModel.Proofs.ExecKeep
+import MxModel.Proofs.ExecInputsRun
+import MxModel.Proofs.ExecCertExamples
 /-!
 # C06 – a value edit discards exactly its dependents; inputs persist
 
@@ -181,6 +183,131 @@ theorem survivor_served_without_running {s : St} (g : GI env lt s) (hi : Idle s)
     evalTop env m (s.setValue env n v).1 = (.ok w, (s.setValue env n v).1) := by
   apply C01.held_never_reexecuted_top env m _ w hc
   rw [set_value_exact g hi n m v hv]; simp [hmn, hnr, hl]
+
+/-! ### inputs survive reference changes, formula edits and deletions of OTHER cells
+
+The facts above are about value edits.  For the edits of the definitions the supporting invariant is
+`RgNoInputs`: **no element holding an assigned value is a reader in the reference graph** – so
+`clear_attr_referrers`, which every reference edit performs, cannot reach it (the defect class of the
+repair 87e96f6) – together with `inputs_have_no_preds` (C08): an input is a dependent of nothing.
+`reachable_inputs_not_readers`: the invariant holds in every reachable state of the thirteen-operation
+language of C02. -/
+
+theorem reachable_inputs_not_readers (lt : Node → Node → Prop) (ho : StrictOrder lt) (env0 : Env)
+    (hw0 : C02.WF env0 lt) (ops : List C02.Op) (hadm : C02.Admissible lt (env0, {}) ops) :
+    RgNoInputs (C02.run (env0, {}) ops).2 :=
+  C02.run_rgNoInputs lt ho ops (env0, {}) hw0 (CI.empty env0 lt) (fun e he => by simp at he) hadm
+
+/-- **Values assigned by the user survive reference changes**: setting a reference (creating or
+changing it) – namespace notification of the observer cells, `clear_attr_referrers` – leaves every
+input an input with its value. -/
+theorem input_survives_ref_edit {s : St} (h : CI env lt s) (hr : RgNoInputs s) (r : RefId) (m : Node) (w : Val)
+    (hin : m ∈ s.inputs) (hl : lookup s.data m = some w) :
+    lookup (s.setRef env r).data m = some w ∧ m ∈ (s.setRef env r).inputs :=
+  have k := (kept_input_setRef (InpInv.of_ci h hr) r m hin).data m rfl
+  ⟨k.1.trans hl, k.2.mpr hin⟩
+
+/-- …and the deletion of a reference. -/
+theorem input_survives_ref_delete {s : St} (h : CI env lt s) (hr : RgNoInputs s) (r : RefId) (m : Node) (w : Val)
+    (hin : m ∈ s.inputs) (hl : lookup s.data m = some w) :
+    lookup (s.delRef env r).data m = some w ∧ m ∈ (s.delRef env r).inputs :=
+  have k := (kept_input_delRef (InpInv.of_ci h hr) r m hin).data m rfl
+  ⟨k.1.trans hl, k.2.mpr hin⟩
+
+/-- **…survive a formula or cache-flag edit of another cells** (`clear_obj` of that cells). -/
+theorem input_survives_formula_edit_of_other_cells {s : St} (h : CI env lt s) (hr : RgNoInputs s) (c : CellId)
+    (m : Node) (w : Val) (hne : m.1 ≠ c) (hin : m ∈ s.inputs) (hl : lookup s.data m = some w) :
+    lookup (s.setFormula c).data m = some w ∧ m ∈ (s.setFormula c).inputs :=
+  have k := (kept_input_clearObj (InpInv.of_ci h hr) c m hin hne).data m rfl
+  ⟨k.1.trans hl, k.2.mpr hin⟩
+
+/-- **…survive the deletion of another cells** – also of a cells of the same space (the namespace
+notification keeps inputs) – and the creation of any cells. -/
+theorem input_survives_cell_delete_of_other_cells {s : St} (h : CI env lt s) (hr : RgNoInputs s) (c : CellId)
+    (m : Node) (w : Val) (hne : m.1 ≠ c) (hin : m ∈ s.inputs) (hl : lookup s.data m = some w) :
+    lookup (s.delCell env c).data m = some w ∧ m ∈ (s.delCell env c).inputs :=
+  have k := (kept_input_delCell (InpInv.of_ci h hr) c m hin hne).data m rfl
+  ⟨k.1.trans hl, k.2.mpr hin⟩
+
+theorem input_survives_cell_create {s : St} (h : CI env lt s) (hr : RgNoInputs s) (c : CellId)
+    (m : Node) (w : Val) (hin : m ∈ s.inputs) (hl : lookup s.data m = some w) :
+    lookup (s.newCell env c).data m = some w ∧ m ∈ (s.newCell env c).inputs :=
+  have k := (kept_input_newCell (InpInv.of_ci h hr) c m hin).data m rfl
+  ⟨k.1.trans hl, k.2.mpr hin⟩
+
+/-- **An input is dropped only by its own clear / overwrite, by `clear_all` of its cells, or by a
+formula / flag edit or the deletion of its cells** (`C02.Touches m op`: `setValue m`, `clearAt m`,
+`clearAll m.1`, `setFormula m.1`, `setCached m.1`, `delCell m.1`): every OTHER operation of the
+thirteen-operation language – evaluations (returned or failed), assignments to and clears of other
+elements, `clear()` of any cells, reference edits, formula / flag edits, deletion and creation of
+other cells, limit changes, administrative calls – leaves it an input with its value.  (`h`, `hr`:
+true of every reachable state, `C02.reachable_ci`, `reachable_inputs_not_readers`.) -/
+theorem input_dropped_only_by_own_ops (ho : StrictOrder lt) (hw : C02.WF env lt) {s : St} (h : CI env lt s)
+    (hr : RgNoInputs s) (op : C02.Op) (m : Node) (w : Val) (hop : ¬ C02.Touches m op)
+    (hin : m ∈ s.inputs) (hl : lookup s.data m = some w) :
+    lookup (C02.step (env, s) op).2.data m = some w ∧ m ∈ (C02.step (env, s) op).2.inputs :=
+  C02.step_keeps_input ho hw h hr op m w hop hin hl
+
+/-- **The inputs are a function of the edits**: after any operation, which elements hold an assigned
+value and which value is determined by the definitions, the inputs before and the operation
+(`C02.inpStep`) – no evaluation, no reference edit, no `clear()`, no edit of another cells changes
+them. -/
+theorem inputs_depend_on_edits_only (ho : StrictOrder lt) (hw : C02.WF env lt) {s : St} (h : CI env lt s)
+    (hr : RgNoInputs s) (op : C02.Op) :
+    inpOf (C02.step (env, s) op).2 = C02.inpStep env (inpOf s) op :=
+  C02.inpOf_step ho hw h hr op
+
+/-! ### "exactly the dependents": the graph against the calls the formulas made
+
+`set_value_exact` / `clear_at_exact` are exact relative to the trace graph.  That the graph contains
+every call is a theorem in the regime of C02 (`NoCatch`): in a state with certificates, a held
+computed element has a replayable trace of its formula (the calls it made, with the values they
+returned; calls made inside uncached callees flattened into it), and EVERY recorded call has its
+edge – so a value edit discards at least everything computed from the edited element – and every
+edge into it stems from a recorded call (`edges_stem_from_calls`; both directions together:
+`C08.edges_are_exactly_the_calls`), so nothing else is discarded: the descendants of `n` in the graph
+are exactly the elements whose recorded computation used, directly or transitively, a value
+returned by `n`. -/
+
+/-- **every call a held element's formula made has an edge in the trace graph** -/
+theorem calls_have_edges {s : St} (h : CI env lt s) (n : Node) (v : Val) (hl : lookup s.data n = some v)
+    (hin : n ∉ s.inputs) :
+    ∃ tr, Replay env tr (env.formula n) v ∧
+      (∀ m w, FEv.call m w ∈ flat n.1 tr → lookup s.data m = some w ∧ (GNode.elem m, GNode.elem n) ∈ s.ge) ∧
+      (∀ m, FEv.ucall m ∈ flat n.1 tr → (GNode.obj m.1, GNode.elem n) ∈ s.ge) := by
+  obtain ⟨tr, hc⟩ := h.certs n v hl hin
+  exact ⟨tr, hc.replay, fun m w hm => ⟨(hc.events _ hm).1, (hc.events _ hm).2.2⟩, fun m hm => hc.events _ hm⟩
+
+/-- **every edge into a held computed element stems from a call its computation made** -/
+theorem edges_stem_from_calls {s : St} (n : Node) (v : Val) (tr : Tr) (hc : Cert env s n v tr) (a : GNode)
+    (he : (a, GNode.elem n) ∈ s.ge) :
+    (∃ m w, a = .elem m ∧ FEv.call m w ∈ flat n.1 tr) ∨ (∃ m, a = .obj m.1 ∧ FEv.ucall m ∈ flat n.1 tr) :=
+  hc.just a he
+
+/-- …hence **assigning to (or clearing) an element discards every value whose computation called
+it** – directly or from inside uncached callees. -/
+theorem callers_are_discarded {s : St} (h : CI env lt s) (n m : Node) (v w v' : Val)
+    (hl : lookup s.data n = some v) (hin : n ∉ s.inputs) (tr : Tr) (hc : Cert env s n v tr)
+    (hcall : FEv.call m w ∈ flat n.1 tr) (hv : ¬ (v' = .none ∧ env.allowNone m.1 = false)) :
+    lookup (s.setValue env m v').1.data n = none := by
+  have hedge := (hc.events _ hcall).2.2
+  have hrk := (hc.events _ hcall).2.1
+  have hne : n ≠ m := by intro h'; subst h'; omega
+  rw [set_value_exact h.gi ⟨h.quiet.stack, h.quiet.idx⟩ m n v' hv, if_neg hne,
+    if_pos (Reach.step Reach.refl hedge)]
+
+/-! Non-vacuity: in the program of C02 (`C02.xEnv`: `c3()` reads `r0` by attribute path, `c0` reads it
+by name) `c3()` is evaluated and then ASSIGNED; the reference graph no longer mentions it, and a
+change of `r0` – which clears the computed `c0(5)` and would clear a computed `c3()` – leaves the
+input in place. -/
+def iOps : List C02.Op :=
+  [.eval (3, []), .eval (0, [.int 5]), .setValue (3, []) (.int 77), .setRef 0 (.int 20)]
+
+example : (C02.run (C02.xEnv, {}) (iOps.take 2)).2.rg = [(1, (2, [.int 1])), (0, (3, []))] ∧
+    (C02.run (C02.xEnv, {}) (iOps.take 3)).2.rg = [(1, (2, [.int 1]))] ∧
+    (C02.run (C02.xEnv, {}) iOps).2.inputs = [(3, [])] ∧
+    lookup (C02.run (C02.xEnv, {}) iOps).2.data (3, []) = some (.int 77) ∧
+    lookup (C02.run (C02.xEnv, {}) iOps).2.data (0, [.int 5]) = none := by decide
 
 /-! Non-vacuity on the program of C08: after evaluating `c3()` (which depends on `c0(1)` through
 the uncached `c1`), assigning `c0(1)` discards `c3()` and nothing else. -/
